@@ -105,7 +105,8 @@ def c01():
         "props_file": "Props/C01.v",
         "theorems": ["C01_partition", "C01_every_step", "C01_failed_fit", "C01_nonvacuous",
                      "C01_labels", "C01_labels_partition", "C01_refine_labels", "C01_labels_nonvacuous", "C01_fit_stops_at_first_bad"],
-        "suites": [suite_hist.suite_hist_api, suite_hist.suite_exhaustive, suite_hist.suite_boundary],
+        "suites": [suite_hist.suite_hist_api, suite_hist.suite_exhaustive, suite_hist.suite_boundary,
+                   suite_hist.suite_seq_refine("C01")],
         "search": suite_hist.search_hist("C01"),
         "replay": suite_hist.replay_hist("C01"),
         "level": "proof",
@@ -124,7 +125,7 @@ def c08():
         "props_file": "Props/C08.v",
         "theorems": ["C08_wellformed", "C08_wellformed_labels", "C08_meaning", "C08_every_insertion",
                      "C08_results_from_leaves", "C08_no_wrap_update", "C08_width_matters"],
-        "suites": [suite_hist.suite_tree_walk, suite_hist.suite_boundary,
+        "suites": [suite_hist.suite_seq_refine("C08"), suite_hist.suite_tree_walk, suite_hist.suite_boundary,
                    suite_hist.suite_exhaustive, suite_sub.suite_sub],
         "search": suite_hist.search_hist("C08"),
         "replay": suite_hist.replay_hist("C08"),
@@ -167,7 +168,8 @@ def c09():
                      "C09_multiround_coarsens", "C09_multiround_stay_together", "C09_round_lists_are_files",
                      "C09_history", "C09_history_keep", "C09_refine_side_condition_needed"],
         "model_files": ["Model/Obs.v", "Model/Multiround.v", "Gen/GMr.v", "Proofs/GenTieMr.v"],
-        "suites": [suite_hist.suite_hist_api, suite_hist.suite_boundary, suite_mr.suite_mr_files],
+        "suites": [suite_hist.suite_hist_api, suite_hist.suite_boundary, suite_mr.suite_mr_files,
+                   suite_hist.suite_seq_refine("C09")],
         "search": search,
         "replay": replay,
         "level": "proof",
@@ -190,7 +192,8 @@ def c02():
                      "C02_width_holds_count", "C02_boundary_255",
                      "C02_clusters_nonempty", "C02_centroid_is_majority",
                      "C02_exact_labels", "C02_labels_nonvacuous"],
-        "suites": [suite_sub.suite_sub, suite_hist.suite_boundary, suite_hist.suite_tree_walk],
+        "suites": [suite_sub.suite_sub, suite_hist.suite_boundary, suite_hist.suite_tree_walk,
+                   suite_hist.suite_seq_refine("C02")],
         "search": suite_hist.search_hist("C02"),
         "replay": suite_hist.replay_hist("C02"),
         "level": "proof",
@@ -210,7 +213,7 @@ def c03():
         "props_file": "Props/C03.v",
         "theorems": ["C03_bound", "C03_never_merge", "C03_merge_meets", "C03_not_below_is_ge",
                      "C03_step_grown", "C03_last_grown", "C03_last_grown_labels", "C03_step_grown_labels"],
-        "suites": [suite_hist.suite_hist_api, suite_merges.suite_merges],
+        "suites": [suite_hist.suite_hist_api, suite_merges.suite_merges, suite_hist.suite_seq_refine("C03")],
         "search": suite_hist.search_hist("C03"),
         "replay": suite_hist.replay_hist("C03"),
         "model_files": ["Model/Obs.v", "Model/ObsBits.v"],
@@ -353,9 +356,13 @@ def c16():
         "theorems": ["C16_batches", "C16_batch_sizes", "C16_ranges_lookup", "C16_file_seq",
                      "C16_file_seq_unsorted", "C16_names_sorted", "C16_digits_enough",
                      "C16_split_merge", "C16_source_tie", "C16_parts_cover",
-                     "C16_split_plan_digits", "C16_split_plan_names_sorted", "C16_split_plan_defined"],
-        "model_files": ["Model/FpsUtil.v"],
-        "suites": [suite_fps.suite_file_seq, suite_fps.suite_batches, suite_fps.suite_fps_cli, __import__('suite_numpysem').suite_numpysem],
+                     "C16_split_plan_digits", "C16_split_plan_names_sorted", "C16_split_plan_defined",
+                     "C16_api", "C16_single_file_any_interleaving", "C16_single_file_any_schedule",
+                     "C16_single_file_equals_api", "C16_multi_file_any_schedule",
+                     "C16_overlapping_ranges_break", "C16_too_few_digits_break"],
+        "model_files": ["Model/FpsUtil.v", "Model/FpsGen.v"],
+        "suites": [suite_fps.suite_file_seq, suite_fps.suite_batches, suite_fps.suite_fps_cli,
+                   __import__('suite_fpsgen').suite_fpsgen, __import__('suite_numpysem').suite_numpysem],
         "search": suite_fps.search_c16,
         "replay": suite_fps.replay_c16,
         "findings": {"multi-file-skip-invalid-no-index": suite_fps.finding_multi_file_skip_invalid},
@@ -364,7 +371,8 @@ def c16():
                 "and out-of-range lists; batches: all (length, n) small; CLI: fps-split (-n / -m), "
                 "fps-merge, fps-shuffle, fps-info (file, dir, 1-D, float), fps-from-smiles over parts x "
                 "processes x pack with invalid SMILES at arbitrary positions (RDKit in-process API as "
-                "reference)",
+                "reference); fps-gen: the real array-filler / file-creator calls made in-process in arbitrary "
+                "order on real shared memory / a real directory vs Model/FpsGen.v",
         "trusted": COMMON_TRUST + ["RDKit (fp_of is an oracle), numpy Generator.shuffle (a permutation)",
                                    "translator for parse_num_per_batch (GenTieUtil.v)"],
         "assumptions": ["multi-process filling: workers write disjoint row ranges / distinct files "
